@@ -7,6 +7,7 @@ package main
 // results, the struct's own fields).
 
 import (
+	"go/constant"
 	"go/token"
 	"go/types"
 	"strings"
@@ -20,13 +21,17 @@ type c17kit struct {
 	pkg     *ssa.Package
 	T       *types.Named    // the compressing response writer
 	W       c17fkey         // the decided writer: the writer-typed field through which T.Write sends the body
+	sel     bool            // no such field: the body's destination is SELECTED where it is written (see c17_select.go)
 	RW      c17fkey         // field of T of type net/http.ResponseWriter: the wrapped writer
 	fns     []*ssa.Function // all functions and closures of the package (and of packages below it)
 	methods []*ssa.Function // declared methods of T
 	wh, wr  *ssa.Function   // T.WriteHeader, T.Write (interface methods of http.ResponseWriter)
 	stores  map[c17fkey][]*ssa.Store
-	flags   map[c17fkey]bool // decision flags (lazily, see decisionFlags)
-	types   []*types.Named   // named non-interface types of the region (lazily, see regionTypes)
+	flags   map[c17fkey]bool           // decision states (lazily, see decisionFlags in c17_state.go)
+	types   []*types.Named             // named non-interface types of the region (lazily, see regionTypes)
+	gzflags map[c17fkey]constant.Value // states equivalent to gzipWriter != nil (lazily, see gzStates)
+	invok   map[*ssa.Function]bool
+	embeds  map[*types.Named]bool
 }
 
 // c17fkey names a field of a struct type of the region: the rules speak about "the decided writer" or "a field that
@@ -100,6 +105,7 @@ func (k *c17kit) inRegionType(n *types.Named) bool {
 }
 
 func c17resolve(c *Ctx) *c17kit {
+	c17theKit = nil
 	k := &c17kit{c: c, pkg: c.spkg(c17pkg)}
 	if k.pkg == nil {
 		c.undecided("C17.D1", "anchor|package proxy/gzip", "package not loaded")
@@ -195,6 +201,14 @@ func c17resolve(c *Ctx) *c17kit {
 	for fk := range wcand {
 		k.W = fk
 	}
+	if len(wcand) == 0 && nRW == 1 {
+		// no writer-typed field at all: the destination of the body may be computed from the rest of the state where it is
+		// needed (`decided bool` + `body()` returning the gzip writer if one was taken and the wrapped writer otherwise)
+		k.W = c17fkey{}
+		if k.resolveSelected() {
+			return k
+		}
+	}
 	if len(wcand) != 1 || nRW != 1 {
 		c.undecided("C17.T1", "anchor|fields of the compressing response writer", "expected exactly one writer-typed field (an interface with Write but without WriteHeader: the decided writer) that the response writer's Write sends the body through, and exactly one http.ResponseWriter field (wrapped writer)")
 		return nil
@@ -243,11 +257,15 @@ func (k *c17kit) fkey(v ssa.Value) c17fkey {
 	return c17fkey{n, idx}
 }
 
-func (k *c17kit) isW(v ssa.Value) bool { return k.fkey(v) == k.W }
+func (k *c17kit) isW(v ssa.Value) bool { return k.W.n != nil && k.fkey(v) == k.W }
 
 // isWval: v is the decided writer: a load of the field, or a local copy of it (`w := grw.writer; if w == nil { ...;
 // w = grw.writer }`): every origin of v inside its function is a load of the field.
 func (k *c17kit) isWval(v ssa.Value) bool {
+	if k.sel {
+		_, _, ok := k.selection(v, nil)
+		return ok
+	}
 	if k.isW(v) {
 		return true
 	}
@@ -303,7 +321,23 @@ func (k *c17kit) isGz(v ssa.Value) bool {
 	return fk.n != nil && c17isGzipType(fk.typ())
 }
 
-func c17isGzipType(t types.Type) bool { return t != nil && typeStr(t) == "*compress/gzip.Writer" }
+// c17typeStr: typeStr that looks through type aliases (`type gzWriter = gzip.Writer`, `type header = http.Header`), also
+// behind a pointer.
+func c17typeStr(t types.Type) string {
+	if t == nil {
+		return ""
+	}
+	t = types.Unalias(t)
+	if p, ok := t.(*types.Pointer); ok {
+		return "*" + c17typeStr(p.Elem())
+	}
+	if s, ok := t.(*types.Slice); ok {
+		return "[]" + c17typeStr(s.Elem())
+	}
+	return typeStr(t)
+}
+
+func c17isGzipType(t types.Type) bool { return t != nil && c17typeStr(t) == "*compress/gzip.Writer" }
 
 // holder: t is (a pointer to) a small struct type of the region, other than the response writer, that wraps a
 // writer: gz lists its *gzip.Writer fields, ws its writer-typed interface fields.
@@ -502,7 +536,13 @@ func c17closed(fn *ssa.Function) bool {
 	if fn.Name() == "init" || fn.Name() == "main" {
 		return false
 	}
-	return fn.Signature.Recv() == nil || !gInvoked[fn.Name()]
+	if fn.Signature.Recv() == nil || !gInvoked[fn.Name()] {
+		return true
+	}
+	// gInvoked knows the bare name only: `Serve`, `Close`, `Flush` are method names of many interfaces. What counts is
+	// whether a call through an interface with this method and signature, which the receiver type satisfies, exists
+	k := c17theKit
+	return k != nil && k.c != nil && fn.Prog == k.c.Prog && !k.invokable(fn)
 }
 
 // ---- facts, lifted through the callers of helpers ------------------------------------------------------------------
@@ -597,7 +637,7 @@ type c17atom func(v ssa.Value, truth bool) bool
 
 // c17holdsAtom: the atom is established at block b.
 func c17holdsAtom(b *ssa.BasicBlock, atom c17atom, depth int) bool {
-	if depth > 8 {
+	if depth > c17maxDepth {
 		return false
 	}
 	return c17holdsX(b, func(f Fact) bool { return c17implies(f.Cond, f.Truth, nil, atom, depth+1) }, 0, true)
@@ -607,7 +647,7 @@ func c17holdsAtom(b *ssa.BasicBlock, atom c17atom, depth int) bool {
 // the atom itself, a negation, the lowered form of `a && b` / `a || b` (a phi), a comparison with a boolean constant,
 // or the result of a boolean repository helper all of whose returns that can yield truth imply the atom.
 func c17implies(v ssa.Value, truth bool, at *ssa.BasicBlock, atom c17atom, depth int) bool {
-	if depth > 8 || v == nil {
+	if depth > c17maxDepth || v == nil {
 		return false
 	}
 	if at != nil && c17holdsAtom(at, atom, depth+1) {
@@ -640,6 +680,14 @@ func c17implies(v ssa.Value, truth bool, at *ssa.BasicBlock, atom c17atom, depth
 					return c17implies(p[0], t, nil, atom, depth+1)
 				}
 			}
+			// a verdict that is not a bool: `switch negotiate(r) { case "gzip": ...` / `if mode(h) == modeCompress`
+			for _, p := range [][2]ssa.Value{{x.X, x.Y}, {x.Y, x.X}} {
+				if kc, ok := p[1].(*ssa.Const); ok && kc.Value != nil {
+					if _, isK := p[0].(*ssa.Const); !isK {
+						return c17impliesCmp(p[0], kc.Value, (x.Op == token.EQL) == truth, nil, atom, depth+1)
+					}
+				}
+			}
 		}
 	case *ssa.Phi:
 		if len(x.Edges) == 0 {
@@ -659,6 +707,10 @@ func c17implies(v ssa.Value, truth bool, at *ssa.BasicBlock, atom c17atom, depth
 		return true
 	case *ssa.Field:
 		return c17impliesStored(v, truth, atom, depth)
+	case *ssa.Parameter:
+		// a verdict handed down to a helper (`serve(w, r, acceptsGzip(r))`, `func serve(..., compress bool)`): what every
+		// caller passes
+		return c17viaCallers(x, func(arg ssa.Value, site *ssa.BasicBlock) bool { return c17implies(arg, truth, site, atom, depth+1) })
 	case *ssa.Extract:
 		// one of several results of a repository helper (`ok, reason := compressable(h)`)
 		call, isCall := x.Tuple.(*ssa.Call)
@@ -696,6 +748,162 @@ func c17implies(v ssa.Value, truth bool, at *ssa.BasicBlock, atom c17atom, depth
 		return n > 0 && all
 	}
 	return false
+}
+
+// c17impliesCmp: whenever (x == K) == want the atom holds (and, if at != nil, control is in block at where x is
+// chosen). For a verdict that is spelled as one of several constants instead of a bool (`negotiateEncoding(r) string`
+// returning "gzip" / "identity", a `mode` enumeration): x is the result of a repository helper (every return that can
+// make the comparison come out as wanted must be taken where the atom is established), a phi of such values, or a
+// constant. A value that is not a constant may compare either way: it counts only where the atom is established anyway.
+func c17impliesCmp(x ssa.Value, K constant.Value, want bool, at *ssa.BasicBlock, atom c17atom, depth int) bool {
+	if depth > c17maxDepth || x == nil {
+		return false
+	}
+	if at != nil && c17holdsAtom(at, atom, depth+1) {
+		return true
+	}
+	returns := func(sc *ssa.Function, idx int) bool {
+		if sc == nil || !isRepoFn(sc) || len(sc.Blocks) == 0 {
+			return false
+		}
+		n, all := 0, true
+		eachInstr(sc, func(i ssa.Instruction) {
+			if r, ok := i.(*ssa.Return); ok && idx < len(r.Results) {
+				n++
+				if !c17impliesCmp(r.Results[idx], K, want, r.Block(), atom, depth+1) {
+					all = false
+				}
+			}
+		})
+		return n > 0 && all
+	}
+	switch y := x.(type) {
+	case *ssa.Const:
+		if y.Value == nil || y.Value.Kind() != K.Kind() {
+			return false
+		}
+		return constant.Compare(y.Value, token.EQL, K) != want // cannot compare as wanted
+	case *ssa.ChangeType:
+		return c17impliesCmp(y.X, K, want, nil, atom, depth+1)
+	case *ssa.Parameter:
+		return c17viaCallers(y, func(arg ssa.Value, site *ssa.BasicBlock) bool {
+			return c17impliesCmp(arg, K, want, site, atom, depth+1)
+		})
+	case *ssa.UnOp, *ssa.Field:
+		// the verdict kept in a field of a struct of the region (`grw.coding = negotiate(r)` ... `if grw.coding == codingGzip`):
+		// every value stored into the field; the zero value of the field is one more value unless it is always assigned
+		k := c17theKit
+		if u, isU := y.(*ssa.UnOp); k == nil || (isU && u.Op != token.MUL) {
+			return false
+		}
+		fk := k.fkey(x)
+		if fk.n == nil || len(k.stores[fk]) == 0 {
+			return false
+		}
+		if !k.alwaysSetAny(fk) {
+			zero := zeroConst(fk.typ())
+			if zero == nil || zero.Kind() != K.Kind() || constant.Compare(zero, token.EQL, K) == want {
+				return false
+			}
+		}
+		// (the conditions are about headers that change while the response is built: a verdict computed elsewhere - in
+		// the constructor, before the inner handler ran - is not a verdict about the headers at the point of use)
+		var home []*ssa.Function
+		if xi, isI := x.(ssa.Instruction); isI && xi.Parent() != nil {
+			home = k.c.region(xi.Parent())
+		}
+		for _, st := range k.stores[fk] {
+			near := false
+			for _, f := range home {
+				if f == st.Parent() {
+					near = true
+				}
+			}
+			if !near || !c17impliesCmp(st.Val, K, want, st.Block(), atom, depth+1) {
+				return false
+			}
+		}
+		return true
+	case *ssa.Phi:
+		if len(y.Edges) == 0 {
+			return false
+		}
+		pk := c17phiKey{y, want}
+		if c17phiBusy[pk] {
+			return true
+		}
+		c17phiBusy[pk] = true
+		defer delete(c17phiBusy, pk)
+		for i, e := range y.Edges {
+			from := y.Block().Preds[i]
+			if c17holdsAtom(from, atom, depth+1) {
+				continue
+			}
+			if n := len(from.Instrs); n > 0 && len(from.Succs) == 2 && from.Succs[0] != from.Succs[1] {
+				if iff, ok := from.Instrs[n-1].(*ssa.If); ok && c17implies(iff.Cond, from.Succs[0] == y.Block(), nil, atom, depth+1) {
+					continue
+				}
+			}
+			if !c17impliesCmp(e, K, want, nil, atom, depth+1) {
+				return false
+			}
+		}
+		return true
+	case *ssa.Call:
+		if sc := y.Call.StaticCallee(); sc != nil && sc.Signature.Results().Len() == 1 {
+			return returns(sc, 0)
+		}
+	case *ssa.Extract:
+		if call, ok := y.Tuple.(*ssa.Call); ok {
+			return returns(call.Call.StaticCallee(), y.Index)
+		}
+	}
+	return false
+}
+
+// zeroConst: the zero value of a basic type as a constant (nil for other types).
+func zeroConst(t types.Type) constant.Value {
+	b, ok := t.Underlying().(*types.Basic)
+	if !ok {
+		return nil
+	}
+	switch {
+	case b.Info()&types.IsString != 0:
+		return constant.MakeString("")
+	case b.Info()&types.IsInteger != 0:
+		return constant.MakeInt64(0)
+	case b.Info()&types.IsBoolean != 0:
+		return constant.MakeBool(false)
+	}
+	return nil
+}
+
+// c17viaCallers: parameter p of a helper all of whose calls are visible static call sites: test holds for the
+// argument at every call site.
+func c17viaCallers(p *ssa.Parameter, test func(arg ssa.Value, site *ssa.BasicBlock) bool) bool {
+	fn := p.Parent()
+	if fn == nil || !c17closed(fn) {
+		return false
+	}
+	idx := -1
+	for i, q := range fn.Params {
+		if q == p {
+			idx = i
+		}
+	}
+	if idx < 0 || len(gSites[fn]) == 0 {
+		return false
+	}
+	for _, s := range gSites[fn] {
+		cc := s.Common()
+		if _, isGo := s.(*ssa.Go); isGo || s.Parent() == fn || idx >= len(cc.Args) || cc.StaticCallee() == nil {
+			return false
+		}
+		if !test(cc.Args[idx], s.Block()) {
+			return false
+		}
+	}
+	return true
 }
 
 // c17impliesStored: v reads a boolean field of a struct of the repository (a verdict carried in a small result /
@@ -777,7 +985,7 @@ func c17fromHeader(s ssa.Value, key string, fromRequest bool) bool {
 		if !fromRequest {
 			return true
 		}
-		return derives(cc.Args[0], func(w ssa.Value) bool { return typeStr(w.Type()) == "*net/http.Request" })
+		return derives(cc.Args[0], func(w ssa.Value) bool { return c17typeStr(w.Type()) == "*net/http.Request" })
 	})
 }
 
@@ -805,7 +1013,7 @@ func c17intCmp(v ssa.Value) (x ssa.Value, op token.Token, k int64, ok bool) {
 func c17fromAcceptEncoding(s ssa.Value) bool {
 	const key = "Accept-Encoding"
 	ofRequest := func(h ssa.Value) bool {
-		return derives(h, func(w ssa.Value) bool { return typeStr(w.Type()) == "*net/http.Request" })
+		return derives(h, func(w ssa.Value) bool { return c17typeStr(w.Type()) == "*net/http.Request" })
 	}
 	return derives(s, func(v ssa.Value) bool {
 		switch x := v.(type) {
@@ -816,7 +1024,7 @@ func c17fromAcceptEncoding(s ssa.Value) bool {
 				}
 			}
 		case *ssa.Lookup:
-			if k, ok := constString(x.Index); ok && k == key && typeStr(x.X.Type()) == "net/http.Header" {
+			if k, ok := constString(x.Index); ok && k == key && c17typeStr(x.X.Type()) == "net/http.Header" {
 				return ofRequest(x.X)
 			}
 		}
@@ -986,7 +1194,7 @@ func (k *c17kit) matchVerdict(v ssa.Value, subject func(ssa.Value) bool, depth i
 		if n := cc.Method.Name(); (n != "MatchString" && n != "Match") || len(cc.Args) != 1 || !subject(cc.Args[0]) {
 			return false
 		}
-		isRe := func(x ssa.Value) bool { return typeStr(x.Type()) == "*regexp.Regexp" }
+		isRe := func(x ssa.Value) bool { return c17typeStr(x.Type()) == "*regexp.Regexp" }
 		ls := k.origins(cc.Value, isRe)
 		for _, l := range ls {
 			if !isRe(l.v) || !k.configuredExpr(l.v) {
@@ -1321,3 +1529,7 @@ func c17precededBy(at ssa.Instruction, pred func(ssa.Instruction) bool, depth in
 	}
 	return true
 }
+
+// c17maxDepth bounds the recursion of the implication engine (facts -> verdicts of helpers -> facts at their returns
+// ...): a verdict that passes through a field, two helpers and a guard clause needs about ten steps.
+const c17maxDepth = 14
